@@ -627,6 +627,8 @@ class ModelsOps:
             return TupleV(l.items + r.items)
         if isinstance(l, ListV) and isinstance(r, ListV) and op is ast.Add and l.items is not None and r.items is not None:
             return ListV(l.items + r.items)
+        if isinstance(l, DictV) and isinstance(r, DictV) and op is ast.BitOr and getattr(l, "rate_table", None) is None:
+            return DictV(self.dict_view(l, node) + self.dict_view(r, node))
         if op is ast.BitOr and isinstance(l, (TypeV, ClsV, TupleV, NoneV)) and isinstance(r, (TypeV, ClsV, TupleV, NoneV)):
             # X | Y: a union of types, usable wherever a tuple of types is
             flat = []
@@ -1594,6 +1596,13 @@ class ModelsOps:
     def make_term(self, args, kwargs, node):
         I = self.I
         items_v = args[0] if args else kwargs.get("items", TupleV([]))
+        if isinstance(items_v, TermV) and getattr(items_v, "as_items", False):
+            # Term(<slice of the items of an abstract term>): the term those items denote
+            r = TermV(items_v.mag, dict(items_v.dims), items=None, normalized=False, origin=items_v.origin)
+            r.empty = items_v.empty
+            r.num_choice = 0            # the items after the numeric element: none of them is numeric
+            r.pure = True
+            return r
         seq = self.iterate(items_v, node)
         if seq is None:
             t = TermV(RF.atom(("termmag", self.st.fresh("t"))), {"?": (1, 0)})
@@ -1643,8 +1652,9 @@ class ModelsOps:
             else:
                 c = self.I.choose(2, f"term-empty@{getattr(node, 'lineno', '?')}", ["nonempty", "empty"])
                 t.empty = bool(c)
-                if t.empty:
-                    pass
+            if t.empty and (t.normalized or getattr(t, "pure", False)) and getattr(t, "num_choice", None) == 0:
+                # an empty normal form without numeric element denotes one
+                self.st.equate(t.mag, RF.const(1))
         return t.empty
 
     def term_len(self, t: TermV, node):
@@ -1708,6 +1718,8 @@ class ModelsOps:
                     return NONE if t.num_choice == 0 else Num(t.nu, "anyrat")
             c = self.I.choose(2, f"num_elem@{getattr(node, 'lineno', '?')}", ["none", "numeric"])
             t.num_choice = c
+            if c == 0 and t.normalized and t.empty is True:
+                self.st.equate(t.mag, RF.const(1))      # an empty normal form without numeric element denotes one
             if P is not None:
                 if c == 0:
                     self.st.equate(t.mag, P)        # no numeric element: the value is the product itself
